@@ -21,7 +21,7 @@ def obligations(tier):
            "leading / trailing blank, last letter dropped / added) and None; script yields nothing / a sequence / a table; group_by_type symbolic"),
         Ob("C16.mode/valid", "misc", "c_valid_mode", {}, t, FN, "each of the 15 documented names (symbolic index) x script yields nothing / a sequence / a table", api=False),
     ] + [
-        Ob(f"C16.reach/after-unterminated/{n}", "pre", "c_split3", {"VF_K1": k}, 300 if tier == "quick" else 900,
+        Ob(f"C16.reach/after-unterminated/{n}", "pre", "c_reach3", {"VF_K1": k}, 300 if tier == "quick" else 900,
            ["simple_ddl_parser/parser.py:Parser.parse_data, process_line, check_line_on_skip_words, check_new_statement_start, process_statement (yacc.parse replaced by the identity)"],
            f"three lines: first = `{n}` without a terminating ';' (skipped statement), second and third any of the 27 catalogued lines (GO, unsupported statements such as COMMENT ON / TRUNCATE / MERGE, "
            "supported ones; symbolic): every later statement is handed to the parser exactly as it is alone - so an unsupported one reaches p_error (C16.perr) whatever precedes it")
